@@ -171,6 +171,8 @@ pub fn ref_scenario(rng: &mut Rng) -> String {
             _ => {}
         }
         s.push_str(names[rng.below(names.len())]);
+        // an alias that is itself one of the names in play (a later component or reference may be named like the alias)
+        if rng.chance(1, 7) { s.push('|'); s.push_str(names[rng.below(names.len())]); }
         s.push('{');
         s.push_str(rng.pick_str(QTYS));
         s.push('}');
